@@ -825,12 +825,8 @@ func calculateAndCheckRuleHash(state *core.BuildState, target *core.BuildTarget)
 			log.Warning("%s", err)
 		}
 	}
-	if !target.IsFilegroup {
-		if err := writeRuleHash(state, target); err != nil {
-			return nil, fmt.Errorf("Attempting to record rule hash: %s", err)
-		}
-	}
-	// Set appropriate permissions on outputs
+	// Set appropriate permissions on outputs. This has to be done before the rule hash is recorded;
+	// once that is there a later build trusts the outputs as they are.
 	if target.IsBinary {
 		for _, output := range target.FullOutputs() {
 			// Walk through the output,
@@ -844,6 +840,11 @@ func calculateAndCheckRuleHash(state *core.BuildState, target *core.BuildTarget)
 			if err != nil {
 				return nil, fmt.Errorf("failed to mark rule output as binary: %w", err)
 			}
+		}
+	}
+	if !target.IsFilegroup {
+		if err := writeRuleHash(state, target); err != nil {
+			return nil, fmt.Errorf("Attempting to record rule hash: %s", err)
 		}
 	}
 	return hash, nil
